@@ -313,6 +313,16 @@ def run_cli(ctx: RunContext) -> None:
         return iter(EventTap(ctx, orig_into(config)))
 
     ex.into_event_stream = tapped
+    import schemathesis.engine.core as core
+
+    orig_execute = core.Engine.execute
+
+    def execute(self):  # noqa: ANN001 - remember the EventStream (its stop event carries the stop instant)
+        stream = orig_execute(self)
+        ctx.extra["stream"] = stream
+        return stream
+
+    core.Engine.execute = execute
     args = list(cfg["argv"])
     old_argv = sys.argv
     sys.argv = ["st"] + args
@@ -339,6 +349,7 @@ def run_cli(ctx: RunContext) -> None:
         sys.stdout, sys.stderr = old_out, old_err
         sys.argv = old_argv
         ex.into_event_stream = orig_into
+        core.Engine.execute = orig_execute
         ctx.stdout = out.getvalue()
         ctx.stderr = err.getvalue()
 
